@@ -18,8 +18,9 @@ CONSTANTS
   Filter = "none"
   NoLockSet = {FALSE}
   TickInList = TRUE
+  WBFlock = TRUE
   POR = FALSE
   MaxHist = 0
 VIEW view
-INVARIANTS TypeOK ContractHolds AckedSurvives LockDiscipline MutexDiscipline
+INVARIANTS TypeOK NoViolation AckedSurvives LockDiscipline MutexDiscipline
 CHECK_DEADLOCK FALSE
